@@ -95,7 +95,7 @@ func genCase(t *rapid.T) Case {
 	var c Case
 	n := rapid.IntRange(2, 25).Draw(t, "n")
 	c.Transport = rapid.SampledFrom([]string{"unix", "unix", "unix", "tcp", "tcps", "tcps"}).Draw(t, "transport")
-	kinds := []string{"frame", "frame", "frame", "frame", "reg", "reg", "reg", "dirinfo", "flood", "halfframe", "terminate", "unregister", "regburst", "multiflood", "postflood", "strangeconn"}
+	kinds := []string{"frame", "frame", "frame", "frame", "reg", "reg", "reg", "dirinfo", "flood", "halfframe", "terminate", "unregister", "regburst", "multiflood", "postflood", "strangeconn", "badauth", "badauth"}
 	if vt.Thorough() {
 		kinds = append(kinds, "floodnoread")
 	}
@@ -149,6 +149,13 @@ func genCase(t *rapid.T) Case {
 			op.Stall = rapid.SampledFrom([]int{0, 5000, 30000}).Draw(t, "pstall")
 		case "strangeconn":
 			op.N = rapid.IntRange(0, 11).Draw(t, "strange")
+		case "badauth":
+			// authenticate requests (the authentication service serves every
+			// connection) which are refused, or whose capability map holds values
+			// of unexpected types beside accepted credentials; N in a row
+			op.N = rapid.SampledFrom([]int{1, 3, 9, 12, 20}).Draw(t, "auths")
+			op.PKind = rapid.SampledFrom([]string{"user-not-a-string", "token-not-a-string", "no-credentials", "known-keys-of-other-types", "random", "fresh-connection"}).Draw(t, "authkind")
+			op.Unreg = rapid.Bool().Draw(t, "pipelined")
 		case "regburst":
 			// connections which subscribe a few times, send all their
 			// unregisterEvent calls in one write and vanish without reading
@@ -396,6 +403,48 @@ func checkCase(c Case) error {
 				}
 				conn.Close()
 			}
+		case "badauth":
+			entries := map[string]ref.Dyn{"ClientServerSocket": {T: ref.Scalar(ref.KBool), V: true}, "auth_user": netkit.Str("u"), "auth_token": netkit.Str("t")}
+			switch op.PKind {
+			case "user-not-a-string":
+				entries["auth_user"] = ref.Dyn{T: ref.Scalar(ref.KInt32), V: int32(7)}
+			case "token-not-a-string":
+				entries["auth_token"] = ref.Dyn{T: ref.ListOf(ref.Scalar(ref.KString)), V: ref.List{"t"}}
+			case "no-credentials":
+				delete(entries, "auth_user")
+				delete(entries, "auth_token")
+			case "known-keys-of-other-types":
+				for _, k := range []string{"ClientServerSocket", "MessageFlags", "MetaObjectCache", "RemoteCancelableCalls", "ObjectPtrUID"} {
+					entries[k] = ref.Dyn{T: ref.Scalar(ref.KString), V: "yes"}
+				}
+				entries["__qi_auth_state"] = ref.Dyn{T: ref.Scalar(ref.KString), V: "done"}
+			}
+			pay := netkit.CapMap(entries)
+			if op.PKind == "random" {
+				pay = payload
+			}
+			who := h
+			if op.PKind == "fresh-connection" {
+				// a connection which has not authenticated keeps asking, with a
+				// user name which is not a string
+				entries["auth_user"] = ref.Dyn{T: ref.Scalar(ref.KBool), V: false}
+				pay = netkit.CapMap(entries)
+				fc, err := netkit.Dial(env.Addr)
+				if err != nil {
+					continue
+				}
+				defer fc.Close()
+				who = fc
+			}
+			for k := 0; k < op.N; k++ {
+				id := who.NextID()
+				from := len(who.Frames())
+				who.Send(netkit.Frame{Type: netkit.Call, ID: id, Service: 0, Object: 0, Action: 8, Payload: pay})
+				if !op.Unreg {
+					who.WaitFrame(from, func(f netkit.Frame) bool { return f.ID == id && (f.Type == netkit.Reply || f.Type == netkit.Error) }, short)
+				}
+			}
+			vt.Label("refused-or-odd-authenticate-requests")
 		case "strangeconn":
 			// a connection underneath the transport (for tcps: no TLS handshake)
 			// which says something else than the protocol, or nothing, and goes
